@@ -207,6 +207,12 @@ func plans(id, tier string) (Plan, bool) {
 			}
 			jobs = append(jobs, Job{Pkg: pkgBackend, Harness: "c19_pool", Instr: "backend", Params: fmt.Sprintf("files=%d;tasks=%d;headers=%s;policy=preemption;budget=%d", cf.files, cf.tasks, h, pick(2, 3)), Shards: pick(2, 8)})
 		}
+		if th {
+			// every interleaving at all (no preemption bound) for the smallest configurations
+			jobs = append(jobs, Job{Pkg: pkgBackend, Harness: "c19_pool", Instr: "backend", Params: "files=1;tasks=1;headers=no;policy=preemption;budget=1000000", Shards: 1})
+			jobs = append(jobs, Job{Pkg: pkgBackend, Harness: "c19_pool", Instr: "backend", Params: "files=2;tasks=1;headers=yes;policy=preemption;budget=1000000;split=10", Shards: 16})
+			jobs = append(jobs, Job{Pkg: pkgBackend, Harness: "c19_pool", Instr: "backend", Params: "files=2;tasks=2;headers=no;policy=preemption;budget=1000000;split=10", Shards: 16})
+		}
 		jobs = append(jobs, Job{Pkg: pkgExtCLI, Harness: "c19_cli", Shards: pick(9, 16), MaxProcs: 2})
 		jobs = append(jobs, Job{Pkg: pkgResults, Harness: "c19_jsontext", Shards: pick(4, 16)})
 		return Plan{Level: "model_checking", Jobs: jobs}, true
